@@ -4,6 +4,8 @@
  ens2prob     thresholds: every ordered selection of <= 3 of {0, 1, 2, 5}; quantile levels: ordered selections of {0, 1/4, 1/2, 3/4, 1}; -p;
               ensembles of 1..3 members with missing members / observations
  expandverif  -i subsets of {0, 6, 12}, -lt subsets of {0, 6, 12, 24, 30}, inputs whose valid times collide
+ window       -b in {default, below=, below, within types (refused)} x -r in {0, 1, 2.5} x every value pattern over {0, 1/2, 1, 2}^4 along an
+              irregular lead-time axis, dev(k) missing cells; lengths compared with both readings of "stays below the threshold"
 (text2nc is exercised under C10.)  Scripts run in-process (runpy, argv injected); outputs are read back with netCDF4.
 """
 import itertools
@@ -361,12 +363,115 @@ def h_expand(ctx):
     ctx.nontrivial(nplaced > 0)
 
 
+# ---- window ------------------------------------------------------------------------------------------------------
+WIN_LEADS = [0.0, 3.0, 6.0, 12.0]          # irregular spacing: the window is a length of TIME, not a number of steps
+WIN_VALUES = [0.0, 0.5, 1.0, 2.0]
+
+
+def _win_expected(series, leads, thr, closed):
+    """The two documented readings of "the length of time that the parameter stays below the threshold", starting at each
+    lead time: the run ends at the first lead time whose VALUE (reading 1) / whose TOTAL since the start (reading 2) is no
+    longer below the threshold, or at the last lead time of the file.  None = missing start, "?" = a missing value
+    inside the run (not specified)."""
+    n = len(series)
+    out = []
+    for o in range(n):
+        if series[o] is None:
+            out.append(None)
+            continue
+        res = []
+        for cumulative in (False, True):
+            tot, j, unknown = 0.0, o, False
+            while j < n:
+                if series[j] is None:
+                    unknown = True
+                    break
+                tot += series[j]
+                x = tot if cumulative else series[j]
+                if not (x <= thr if closed else x < thr):
+                    break
+                j += 1
+            res.append("?" if unknown else leads[min(j, n - 1)] - leads[o])
+        out.append(res)
+    return out
+
+
+def h_window(ctx):
+    seed = core.seed()
+    via = ctx.choose("input", ("text", "nc"), free=True)
+    btype = ctx.choose("-b", (None, "below=", "below", "within", "=within="), free=True)
+    thr = ctx.choose("-r", (0.0, 1.0, 2.5), free=True)
+    refused = btype in ("within", "=within=")
+    pat = 27 if refused else ctx.choose("pattern", tuple(range(0, 256, ctx.params.get("stride", 1))), free=True)
+    ai = base_input(seed, nt=2, nl=4)
+    ai.leads = list(WIN_LEADS)
+    nser = 0
+    for f in ("fcst", "obs"):
+        for ti in range(len(ai.times)):
+            for si in range(len(ai.locs)):
+                code = (pat * (1 if nser == 0 else 7) + 37 * nser) % 256
+                for li in range(4):
+                    ai.fields[f][(ti, li, si)] = WIN_VALUES[(code >> (2 * li)) & 3]
+                nser += 1
+    for f in ("obs", "fcst"):
+        for pos in [(0, 0, 0), (0, 1, 0), (1, 2, 1), (1, 3, 0)]:
+            if not refused and ctx.choose_bool("miss:%s:%r" % (f, pos)):
+                del ai.fields[f][pos]
+    src = write_input(ai, via, "c20win")
+    dst = os.path.join(H.scratch(), "c20win", "out%d.nc" % os.getpid())
+    if os.path.exists(dst):
+        os.remove(dst)
+    argv = [src, dst, "-r", thr] + (["-b", btype] if btype is not None else [])
+    ctx.note("argv", [os.path.basename(str(a)) for a in argv])
+    kind, _, site, out_txt = run_script("window.py", argv)
+    if refused:
+        # one threshold does not define a within-interval: the script must refuse, not write something
+        ctx.require(kind == "exit", "window:improper-bin-type-not-rejected", kind=kind, site=site)
+        ctx.outcome("rejected")
+        ctx.observe(("rejected", btype))
+        return
+    if kind != "ok":
+        ctx.fail("window:%s:%s" % (kind, site or "rejected"), stdout=out_txt[-200:])
+        return
+    out = read_nc(dst)
+    ids = check_meta(ctx, out, ai, "window")
+    attrs = out["__attrs__"]
+    ctx.require(str(attrs.get("units", "")).replace("$", "") == "mm", "window:units-not-preserved", actual=str(attrs.get("units")))
+    ctx.require(str(attrs.get("long_name", "")) == "Precip", "window:variable-name-not-preserved", actual=str(attrs.get("long_name")))
+    closed = btype in (None, "below=")
+    judged = 0
+    for f in ("obs", "fcst"):
+        for ti in range(len(ai.times)):
+            for si, sid in enumerate(ids):
+                sj = [j for j, l in enumerate(ai.locs) if float(l[0]) == sid][0]
+                series = [ai.get(f, (ti, li, sj)) for li in range(4)]
+                exp = _win_expected(series, ai.leads, thr, closed)
+                for li in range(4):
+                    g = float(out[f][ti, li, si])
+                    if exp[li] is None:
+                        ctx.require(math.isnan(g), "window:missing-value-got-a-window", field=f, time=ti, lead=li, actual=g, series=series)
+                        continue
+                    cands = [e for e in exp[li] if e != "?"]
+                    if len(cands) < 2:
+                        # a missing value inside the run: only "not missing, a length between 0 and the end of the file" is promised
+                        ctx.require(not math.isnan(g) and 0 <= g <= ai.leads[-1] - ai.leads[li], "window:range", field=f, lead=li, actual=g, series=series)
+                        continue
+                    judged += 1
+                    ctx.require(any(abs(e - g) < 1e-6 for e in cands), "window:length:%s" % ("closed" if closed else "open"), field=f, time=ti, lead=li,
+                                expected=cands, actual=g, series=series, threshold=thr, argv=ctx.notes["argv"])
+    ctx.count(judged)
+    ctx.observe((via, btype, thr, tuple(np.nan_to_num(out["fcst"], nan=-7).reshape(-1).tolist())))
+    ctx.outcome("longest=%g" % np.nanmax(out["fcst"]))
+    ctx.nontrivial(len(set(np.nan_to_num(out["fcst"], nan=-7).reshape(-1).tolist())) > 1)
+
+
 def plan(tier):
     q = tier == "quick"
     return [("accumulate", h_accumulate, {"sizes": True}, "dev", 1 if q else 2),
             ("ens2prob", h_ens2prob, {"thr": ordered_selections([1.0, 2.0, 5.0], 2) + [(5.0, 0.0, 2.0)] if q else ordered_selections([0.0, 1.0, 2.0, 5.0], 3),
                           "qs": ordered_selections([0.0, 0.5, 1.0], 2) + [(0.25, 0.75), (0.75, 0.25)] if q else ordered_selections([0.0, 0.25, 0.5, 0.75, 1.0], 2) + [(0.75, 0.25, 0.5), (0.0, 1.0, 0.5)]}, "dev", 1 if q else 2),
             ("expandverif", h_expand, {}, "dev", 1),
+            ("window", h_window, {"stride": 7 if q else 1}, "dev", 1 if q else 2),
             # text2nc is a helper script too: the round-trip oracle of C10 (every field of the text file, pit included, is in the NetCDF file)
             ("text2nc", T10.h_text2nc, {}, "full", None)]
 
@@ -380,6 +485,7 @@ def run(tier, only=None):
         st = explore.explore(h, mode=mode, k=k, params=params, repo_root=core.REPO, time_cap=(300 if tier == "quick" else 3000))
         bound = {"accumulate": "full {text,nc} x 6 windows x 2 axes x -i, dev(%s) over missing cells" % k,
                  "ens2prob": "full {text,nc} x 1-3 members x ordered threshold selections x ordered level selections x -p, dev(%s) over missing obs/member/fcst" % k,
+                 "window": "full {text,nc} x {default, below=, below, within, =within=} x 3 thresholds x %s lead-time value patterns over {0, 0.5, 1, 2}^4 (irregular lead times), dev(%s) over missing cells" % ("37 of the 256" if tier == "quick" else "all 256", k),
                  "text2nc": "2^5 field subsets x 3 missing-cell variants x 2 row orders (the round trip of C10)",
                  "expandverif": "full {text,nc} x 9 -i lists x 36 -lt lists (ascending subsets and permuted / descending ones) x 2 input init hours x {ascending, descending, rotated} input time axis of three days, dev(1) missing obs"}[name]
         subs.append(core.Sub.from_e1(name, st, bound=bound, rule="one execution = one script run, every output cell compared with the reference transformation",
